@@ -14,8 +14,8 @@ const suPkg = "pkg/protocol/serveruser"
 
 func propC07() *Property {
 	return &Property{
-		ID:      "C07",
-		Decides: "R07.1 a discovery result with a cipher exists only on the success edge of an AEAD open under one user's key, and its id/name/policy are that same user's; R07.2 the candidate order in tryState: four phases (cached hint, registry hint, cached fallback, registry fallback), hint-phase trials only for users whose hint matches, fallback trials only for users whose hint does not match and only when hints are optional, every trial guarded by nothing but the enumerated conditions (so no phase is skipped because of cache contents), the hint-mandatory test placed after both hint phases; R07.4 user generations: the published pointer is only swapped by SetUsers (old cache retired), a result obtained with requireCurrent is returned only after re-checking that the generation is still current, generation state/user records are never written after buildState, the pending generation pointer is only consumed by recordAuthenticated; R07.5 the source cache learns an association only from commitServerUserAuthentication, after the first segment was validated and dispatched; R07.6 a session's user name and policy come only from the authenticating cipher / authentication.; R07.7 tryState returns a failure only after whole phases, never from inside a candidate loop; R07.8 every SetUsers call publishes a generation built from its argument (or skips only after comparing every field of the user message)",
+		ID:         "C07",
+		Decides:    "R07.1 a discovery result with a cipher exists only on the success edge of an AEAD open under one user's key, and its id/name/policy are that same user's; R07.2 the candidate order in tryState: four phases (cached hint, registry hint, cached fallback, registry fallback), hint-phase trials only for users whose hint matches, fallback trials only for users whose hint does not match and only when hints are optional, every trial guarded by nothing but the enumerated conditions (so no phase is skipped because of cache contents), the hint-mandatory test placed after both hint phases; R07.4 user generations: the published pointer is only swapped by SetUsers (old cache retired), a result obtained with requireCurrent is returned only after re-checking that the generation is still current, generation state/user records are never written after buildState, the pending generation pointer is only consumed by recordAuthenticated; R07.5 the source cache learns an association only from commitServerUserAuthentication, after the first segment was validated and dispatched; R07.6 a session's user name and policy come only from the authenticating cipher / authentication.; R07.7 tryState returns a failure only after whole phases, never from inside a candidate loop; R07.8 every SetUsers call publishes a generation built from its argument (or skips only after comparing every field of the user message)",
 		NotDecided: "independence from every reachable cache content (the 4096x4x16 table with wrapping ticks is value-level), the bounded de-duplication array's exact behaviour beyond 16 users, races between reload and recording beyond the atomic-publication structure.",
 		Rules: []Rule{
 			{ID: "R07.1", Floor: 4, Text: "discoveryResult.block is only set in tryUser from user.decryptor.TryDecrypt on its err==nil edge; userID, userContext.UserName and policy of that literal are loads from the same user", Run: r07_1},
@@ -1030,7 +1030,6 @@ func ruleSetUsersPublishes(c *RC) {
 	})
 }
 
-
 // hintWrapperUserParam: fn does nothing but return
 // cipher.CheckUserFromHint(<name of its parameter i>, <another parameter>);
 // returns i, or -1.
@@ -1074,7 +1073,6 @@ func hintWrapperUserParam(fn *ssa.Function) int {
 	}
 	return -1
 }
-
 
 // isAttemptedPredicate: the call asks a side-effect-free boolean function of
 // the serveruser package about a user's id (the "already tried" set, whatever
